@@ -30,6 +30,13 @@ type KnownFindings struct {
 	Fixed    []Finding `json:"fixed"`
 }
 
+// DeadPath: a return / loop body that is unreachable for a stated, reviewed
+// reason (so that the reachability check can tell it from a vacuity hole).
+type DeadPath struct {
+	ID     string `json:"id"`
+	Reason string `json:"reason"`
+}
+
 type Finding struct {
 	Property   string `json:"property"`
 	Obligation string `json:"obligation"`
@@ -70,16 +77,14 @@ func cmdFn(argv []string) int {
 		fmt.Fprintln(os.Stderr, "usage: govc fn [flags] <pkg pattern> <func key>...")
 		return 2
 	}
-	w, err := loadWorld(*repo, []string{args[0]}, filepath.Join(*verif, "contracts", "external"))
+	pats := strings.Split(args[0], ",")
+	w, err := loadWorld(*repo, pats, filepath.Join(*verif, "contracts", "external"))
 	if err != nil {
 		fmt.Fprintln(os.Stderr, "load:", err)
 		return 2
 	}
 	w.verbose = *verbose
-	var pkgPath string
-	for p := range w.pkgs {
-		pkgPath = p
-	}
+	pkgPath := modPath + "/" + strings.TrimPrefix(pats[0], "./")
 	work, _ := os.MkdirTemp("", "govc-fn-")
 	if !*keep {
 		defer os.RemoveAll(work)
@@ -108,6 +113,13 @@ func cmdFn(argv []string) int {
 			fmt.Println("  diag:", d)
 		}
 		solveAll(res.VC.obls, SolverCfg{WorkDir: work, TimeoutS: *timeout, KeepFiles: *keep, All: *all})
+		solveAll(res.VC.covers, SolverCfg{WorkDir: filepath.Join(work, "covers"), TimeoutS: 3, KeepFiles: *keep})
+		for _, o := range res.VC.covers {
+			if o.Status == "unsat" {
+				fmt.Printf("  VACUOUS  unreachable: %s\n", o.ID)
+				rc = 2
+			}
+		}
 		for _, o := range res.VC.obls {
 			fmt.Printf("  %-8s %-7s %5.2fs  %s\n", o.Status, o.Solver, o.Secs, o.ID)
 			if o.Status != "unsat" {
@@ -167,6 +179,7 @@ func cmdCheck(writeBaseline bool, argv []string) int {
 	keep := fs.Bool("keep", false, "keep SMT files")
 	verbose := fs.Bool("v", false, "verbose")
 	replayOnly := fs.String("replay", "", "re-run a recorded replay")
+	noEvidence := fs.Bool("noevidence", false, "do not write evidence/replay files under /verif (selftest runs)")
 	fs.Parse(argv)
 	if fs.NArg() < 1 {
 		fmt.Fprintln(os.Stderr, "usage: govc check <property>")
@@ -244,7 +257,9 @@ func cmdCheck(writeBaseline bool, argv []string) int {
 		}
 	}
 	var obls []*Obl
+	var covers []*Obl
 	for _, r := range results {
+		covers = append(covers, r.VC.covers...)
 		for _, o := range r.VC.obls {
 			if len(o.Tags) > 0 && !contains(o.Tags, prop) {
 				continue
@@ -270,6 +285,24 @@ func cmdCheck(writeBaseline bool, argv []string) int {
 	}
 	solveAll(obls, SolverCfg{WorkDir: work, TimeoutS: to, All: *tier == "thorough", KeepFiles: *keep})
 
+	solveAll(covers, SolverCfg{WorkDir: filepath.Join(work, "covers"), TimeoutS: 3, KeepFiles: *keep})
+	var vacuous []string
+	var dead []DeadPath
+	readJSON(filepath.Join(*verif, "dead_paths.json"), &dead)
+	acceptedDead := map[string]bool{}
+	for _, d := range dead {
+		acceptedDead[d.ID] = true
+	}
+	var deadAccepted []string
+	for _, o := range covers {
+		if o.Status == "unsat" {
+			if acceptedDead[o.ID] {
+				deadAccepted = append(deadAccepted, o.ID)
+			} else {
+				vacuous = append(vacuous, o.ID)
+			}
+		}
+	}
 	blFile := filepath.Join(*verif, "baseline", prop+".json")
 	if writeBaseline {
 		var ids []string
@@ -286,6 +319,9 @@ func cmdCheck(writeBaseline bool, argv []string) int {
 		fmt.Printf("baseline %s: %d obligations (of %d generated)\n", prop, len(ids), len(obls))
 		for _, u := range unbound {
 			fmt.Println("UNBOUND", u)
+		}
+		for _, v := range vacuous {
+			fmt.Println("VACUOUS (unreachable under the assumptions):", v)
 		}
 		return 0
 	}
@@ -384,6 +420,9 @@ func cmdCheck(writeBaseline bool, argv []string) int {
 	rc := 0
 	nviol := 0
 	replayDir := filepath.Join(*verif, "replay", prop)
+	if *noEvidence {
+		replayDir = filepath.Join(work, "replay")
+	}
 	var knownLines []string
 	for _, v := range viols {
 		if f, ok := known[v.id]; ok {
@@ -406,6 +445,12 @@ func cmdCheck(writeBaseline bool, argv []string) int {
 	}
 	for _, u := range unbound {
 		fmt.Println("UNBOUND", u)
+		if rc == 0 {
+			rc = 2
+		}
+	}
+	for _, v := range vacuous {
+		fmt.Println("VACUOUS unreachable:", v)
 		if rc == 0 {
 			rc = 2
 		}
@@ -456,6 +501,9 @@ func cmdCheck(writeBaseline bool, argv []string) int {
 		"trusted_base":             trusted,
 		"functions_under_contract": funcs,
 		"generated_obligations":    len(obls),
+		"reachability_covers":      len(covers),
+		"vacuous_paths":            vacuous,
+		"accepted_dead_paths":      deadAccepted,
 		"undecided_not_claimed":    undecided,
 		"by_solver":                bySolver,
 		"solver_seconds":           round3(solverSecs),
@@ -470,8 +518,10 @@ func cmdCheck(writeBaseline bool, argv []string) int {
 		"dropped_by_translation":   droppedByTranslation,
 	}
 	ev["assumptions"] = assumptions
-	os.MkdirAll(filepath.Join(*verif, "evidence"), 0o755)
-	writeJSON(filepath.Join(*verif, "evidence", prop+".json"), ev)
+	if !*noEvidence {
+		os.MkdirAll(filepath.Join(*verif, "evidence"), 0o755)
+		writeJSON(filepath.Join(*verif, "evidence", prop+".json"), ev)
+	}
 	fmt.Printf("%s: %d/%d baseline obligations discharged, %d generated, %d functions, %.1fs (load %.1fs)\n", prop, discharged, len(bl.Obligations), len(obls), len(funcs), time.Since(t0).Seconds(), loadS)
 	return rc
 }
